@@ -204,7 +204,7 @@ ALLOWED = {
     'meta_atime': {'path': {'Base/Key'}},
     'meta_times_h': {'handle': {'Handle(Base/Key)'}},
     'ns_remove_file': {'path': {'Value', 'Base/Listed', 'Temp/Listed'}},
-    'ns_create_dir': {'path': {'Temp', 'parent(Base/Key)', 'Base'}},
+    'ns_create_dir': {'path': {'Temp', 'parent(Base/Key)', 'Base', 'parent(Temp)'}},   # parent(Temp) is the cache directory itself
 }
 
 
